@@ -1,5 +1,6 @@
 """C01 — serialized values inhabit the generated type (representation-class, naming and enum-matrix clauses)."""
 from rules import templates as T
+from rules import field_rules as F
 from rules import libimpls as L
 from rules import macro_mir as MM
 
@@ -9,5 +10,5 @@ ASSUMPTIONS = ["reference/serde_classes.json and the enum representation matrix 
 
 def run(ctx):
     c = ctx.mir("default")["ts_rs"]
-    return [L.class_table_rule(ctx.syn, c, "C01", rule="C01.R1"), T.naming_precedence_rule(ctx.syn, "C01", rule="C01.R2"),
+    return [L.class_table_rule(ctx.syn, c, "C01", rule="C01.R1"), F.naming_rule(ctx.mir("default")["ts_rs_macros"], "C01", rule="C01.R2"),
             T.rename_all_fields_rule(ctx.syn, "C01", rule="C01.R2b"), T.variant_matrix_rule(ctx.syn, "C01"), T.struct_tag_first_rule(ctx.syn, "C01"), T.variant_tag_rule(ctx.syn, "C01"), T.struct_dispatch_rule(ctx.syn, "C01"), T.variant_name_flow_rule(ctx.syn, "C01", rule="C01.R7"), MM.skip_rule(ctx.mir("default")["ts_rs_macros"], "C01", rule="C01.R8")]
